@@ -138,6 +138,29 @@ def rule_TB2(rep, prog):
     rep.require(rid, len(rad_to) >= 5 and prod == n, to.file, to.name, "decoder-radix-product",
                 "_dispatch_queue_attr_to_info decodes with radices %s (product %d) but _dispatch_queue_attrs has %s entries" % (rad_to, prod, n),
                 sample={"radices": rad_to, "product": prod, "table": n})
+    # the "not one of the table's entries" test covers the WHOLE table: its upper bound is the table's end (entries x entry size), so that every one of the
+    # n attribute values decodes as itself (the last entry - every digit at its maximum, inactive included - is otherwise taken for a foreign copy and aliased to
+    # entry 0: the queue comes out active and runs before dispatch_activate)
+    esz = [i.ops[1][1] for i in to.all_insts() if i.op in ("sdiv", "udiv") and i.ops[1][0] == "c" and to.inst(i.ops[0]) is not None and to.inst(i.ops[0]).op == "sub"]
+    ubs = [t for t in to.all_insts() if t.op == "icmp" and t.d["pred"] in ("uge", "ugt", "ult", "ule") and any(o[0] == "g" and o[1] == "_dispatch_queue_attrs" for o in t.ops)]
+    if not esz or not ubs:
+        rep.unknown(rid, "anchor vanished: range test / entry size of _dispatch_queue_attrs in the decoder not found (%d/%d)" % (len(ubs), len(esz)))
+    else:
+        # every comparison of the argument with an address inside the table draws a boundary: "p < G+b" / "p >= G+b" at b, "p <= G+b" / "p > G+b" at b + entry;
+        # the boundaries of the in-table test are exactly the table's start and its end
+        bounds = set()
+        for t in ubs:
+            gi = [k_ for k_, o in enumerate(t.ops) if o[0] == "g" and o[1] == "_dispatch_queue_attrs"][0]
+            off = t.ops[gi][2] if len(t.ops[gi]) > 2 else 0
+            pred = t.d["pred"]
+            if gi == 0:      # G+off <pred> p  ==  p <swapped pred> G+off
+                pred = {"uge": "ule", "ugt": "ult", "ult": "ugt", "ule": "uge"}[pred]
+            bounds.add(off + (esz[0] if pred in ("ugt", "ule") else 0))
+        want_b = {0, (n or 0) * esz[0]}
+        rep.require(rid, bounds == want_b, ubs[0].loc, to.name, "decoder-table-bound",
+                    "_dispatch_queue_attr_to_info tests its argument against the byte range %s of _dispatch_queue_attrs, but the table is %s (%s entries of %d bytes): "
+                    "entries outside the tested range are not decoded as themselves (the last one - initially inactive, every digit at its maximum - is aliased to "
+                    "entry 0: the queue is created active)" % (sorted(bounds), sorted(want_b), n, esz[0]), sample={"bounds": sorted(bounds), "table": sorted(want_b)})
     # encoder multiplies by all but the outermost radix (idx starts at 0): compare as reversed sequence, ignoring the leading multiply of zero
     enc = [r for r in rad_fr]
     rev = list(reversed(rad_to))
@@ -460,6 +483,54 @@ def rule_TB10(rep, prog, srcdir):
                             % (P, hex(v) if v is not None else "?", RQ), sample={"priority": hex(P), "after": hex(v) if v is not None else None})
 
 
+def rule_MP11(rep, prog):
+    rid = rep.rule("C18-MP11", "walking the chain of current queues (dispatch_assert_queue / _not): a step from a queue to its TARGET consumes the thread frame only when "
+                   "the walk stands at that frame's own queue - a frame pushed by dispatch_sync records the submitting context's queue and is reached later, after "
+                   "the target chain of the queue the block runs on; the remote dispatch_async_and_wait invoke rebases the frames onto the linkage the waiter saved", floor=2)
+    fn = prog.fn("_dispatch_thread_frame_iterate_next")
+    rep.saw(fn)
+    fstores = [st for st in fn.all_insts() if st.op == "store" and "dtfi_frame" in prog.fields(st)]
+    qstores = [st for st in fn.all_insts() if st.op == "store" and "dtfi_queue" in prog.fields(st)]
+    if not fstores or not qstores:
+        rep.unknown(rid, "anchor vanished in _dispatch_thread_frame_iterate_next (frame stores=%d, queue stores=%d)" % (len(fstores), len(qstores)))
+    def is_target_step(st):
+        v = fn.inst(st.ops[0])
+        return v is not None and v.op == "load" and "do_targetq" in prog.fields(v)
+    n = 0
+    for st in fstores:
+        hops = [q_ for q_ in qstores if is_target_step(q_) and (fn.dominates(q_, st) or q_.block is st.block)]
+        if not hops:
+            continue
+        n += 1
+        cx = paths.dom_ctx(fn, st)
+        ok = False
+        for cid, tv in cx.truth.items():
+            t = fn.insts[cid]
+            if t.op == "icmp" and t.d["pred"] in ("eq", "ne") and tv == (t.d["pred"] == "eq"):
+                a, b = fn.inst(t.ops[0]), fn.inst(t.ops[1])
+                if a is not None and b is not None and a.op == "load" and b.op == "load" and \
+                   ({"dtfi_queue"} & (prog.fields(a) | prog.fields(b))) and any(x.d["ptr"]["base"][0] == "i" and fn.inst(x.d["ptr"]["base"]) is not None
+                                                                               and "dtfi_frame" in prog.fields(fn.inst(x.d["ptr"]["base"])) for x in (a, b)):
+                    ok = True
+        rep.require(rid, ok, st.loc, fn.name, "frame-consumed-on-foreign-hop",
+                    "_dispatch_thread_frame_iterate_next pops the thread frame on a step to the target queue without having found the current queue equal to that "
+                    "frame's queue: the frame dispatch_sync pushed for the submitting context is thrown away on the first hop, so inside a dispatch_sync block "
+                    "dispatch_assert_queue(<submitting queue>) traps and dispatch_assert_queue_not accepts it", sample={"store": st.loc})
+    if fstores and n < 1:
+        rep.unknown(rid, "no frame store on a target-queue step found in _dispatch_thread_frame_iterate_next")
+    f2 = prog.fn("_dispatch_async_and_wait_invoke")
+    rep.saw(f2)
+    push = [c for c in f2.all_insts() if c.op == "call" and c.callee and c.callee.startswith("_dispatch_thread_frame_push")]
+    okp = bool(push)
+    for c in push:
+        third = f2.inst(c.ops[2]) if len(c.ops) > 2 else None
+        okp = okp and c.callee == "_dispatch_thread_frame_push_and_rebase" and third is not None and "dsc_dtf" in prog.fields(third)
+    rep.require(rid, okp, push[0].loc if push else f2.file, f2.name, "remote-invoke-without-rebase",
+                "_dispatch_async_and_wait_invoke must push its frame with _dispatch_thread_frame_push_and_rebase onto the context's saved linkage (dsc_dtf): a block "
+                "run remotely by the queue's drainer otherwise no longer sees the submitting context - dispatch_assert_queue on the queue whose item called "
+                "dispatch_async_and_wait traps", sample={"pushes": len(push)})
+
+
 def root_of(fn, op):
     from .C03 import root_ptr
     return root_ptr(fn, op)
@@ -587,6 +658,8 @@ def run(rep, tier="quick", srcdir=None, only=None):
         rule_TB9(rep, prog, srcdir)
     if want("C18-TB10"):
         rule_TB10(rep, prog, srcdir)
+    if want("C18-MP11"):
+        rule_MP11(rep, prog)
     if want("C18-MP8"):
         rule_MP8(rep, prog)
     if want("C18-WM6"):
